@@ -9,15 +9,15 @@ SINGLE = [
     ('size_t_length', ['-DGLM_FORCE_SIZE_T_LENGTH']), ('xyzw_only', ['-DGLM_FORCE_XYZW_ONLY']), ('swizzle', ['-DGLM_FORCE_SWIZZLE']),
     ('unrestricted', ['-DGLM_FORCE_UNRESTRICTED_GENTYPE']), ('wxyz', ['-DGLM_FORCE_QUAT_DATA_WXYZ']),
     ('platform_unknown', ['-DGLM_FORCE_PLATFORM_UNKNOWN']), ('compiler_unknown', ['-DGLM_FORCE_COMPILER_UNKNOWN']), ('arch_unknown', ['-DGLM_FORCE_ARCH_UNKNOWN']),
-    ('cxx_unknown', ['-DGLM_FORCE_CXX_UNKNOWN']), ('pure', ['-DGLM_FORCE_PURE']),
+    ('cxxunknown', ['-DGLM_FORCE_CXX_UNKNOWN']), ('pure', ['-DGLM_FORCE_PURE']),
 ]
 COMBOS = [
     ('cxx98+ctor_init+wxyz', ['-DGLM_FORCE_CXX98', '-DGLM_FORCE_CTOR_INIT', '-DGLM_FORCE_QUAT_DATA_WXYZ']),
     ('cxx11+inline+xyzw_only+size_t', ['-DGLM_FORCE_CXX11', '-DGLM_FORCE_INLINE', '-DGLM_FORCE_XYZW_ONLY', '-DGLM_FORCE_SIZE_T_LENGTH']),
-    ('unknown-all', ['-DGLM_FORCE_PLATFORM_UNKNOWN', '-DGLM_FORCE_COMPILER_UNKNOWN', '-DGLM_FORCE_ARCH_UNKNOWN', '-DGLM_FORCE_CXX_UNKNOWN']),
+    ('cxxunknown-all', ['-DGLM_FORCE_PLATFORM_UNKNOWN', '-DGLM_FORCE_COMPILER_UNKNOWN', '-DGLM_FORCE_ARCH_UNKNOWN', '-DGLM_FORCE_CXX_UNKNOWN']),
     ('swizzle+explicit+unrestricted', ['-DGLM_FORCE_SWIZZLE', '-DGLM_FORCE_EXPLICIT_CTOR', '-DGLM_FORCE_UNRESTRICTED_GENTYPE']),
 ]
-QUICK = ['cxx98', 'cxx11', 'inline', 'ctor_init', 'xyzw_only', 'wxyz', 'compiler_unknown']
+QUICK = ['cxx98', 'cxx11', 'inline', 'ctor_init', 'xyzw_only', 'wxyz', 'compiler_unknown', 'cxx98+ctor_init+wxyz']
 
 
 def SPEC(tier):
@@ -30,6 +30,7 @@ def SPEC(tier):
         for c in cfgs:
             c.flags.append('-DOPS_WITH_MEDIUMP')
     else:
+        d.update(dict(COMBOS))
         cfgs += [Cfg(n, d[n]) for n in QUICK] + [Cfg('O0', opt='-O0'), Cfg('clang-O2', compiler='clang++')]
     st = driver_stage('C15', cfgs, 'bits', 2000, 50000)
     return {'stages': [st], 'assumptions': props.COMMON_ASSUME + ['"aligned types without intrinsics" cannot be built with gcc/clang on Linux (needs the MS language-extension flag, which only the SIMD arch bit provides); handedness, depth range, default precision and SIMD are semantic switches and deliberately absent'],
@@ -40,6 +41,6 @@ def SPEC(tier):
 META = dict(
     technique='bit-exact differential testing between separately compiled GLM configurations (macro / language level / optimisation level / compiler) over a generated operation table',
     text='The operation table (~3300 instances quick, ~5000 thorough) is compiled once per configuration into its own shared library; identical inputs are run through all of them in one process and every output is '
-         'compared bit for bit against the baseline. Quick: 9 configurations; thorough: 35 (all single macros of the statement, 4 combinations, O0/O2/O3, g++ and clang++).',
+         'compared bit for bit against the baseline. Quick: 11 configurations; thorough: 35 (all single macros of the statement, 4 combinations, O0/O2/O3, g++ and clang++).',
     note='-ffp-contract=off -fno-fast-math are fixed across the matrix (compiler semantics, not GLM settings). Two NaN results are treated as equal whatever their payload.',
     design='6/C15')
